@@ -76,8 +76,10 @@ class Checker:
 
     # ------------------------------------------------------------------
     def run(self, ops):
-        last = ops[-1] if ops else None
-        for op in ops:
+        # ops may be a generator (logs are streamed): one operation of look-ahead tells which one is the last
+        it = iter(ops); nxt = next(it, None)
+        while nxt is not None:
+            op = nxt; nxt = next(it, None); last = op if nxt is None else None
             self.stats['ops'] += 1
             self.stats['op.' + OPS[op.op]] += 1
             for vv in op.viol:
